@@ -371,6 +371,23 @@ def rule_d(repo, chk):
         sk = [n for n in g.nodes if n.kind == 'stmt' and want['seek-start'](n)]
         ok = bool(rd) and bool(sk) and all(Q.reachable_without(g, r_, avoid_node=lambda n: n in sk) is None for r_ in rd)
         chk.ob('d', f.ref, 'the slice is read after seeking to its start', ok, loc(f, u.ast), discr='seek-before-read')
+    # multipart/byteranges: every part is read after seeking to its own start (parts may overlap or come in any order)
+    fr = f.nested.get('file_ranges')
+    if fr is not None:
+        chk.touch(fr)
+        gf = fr.cfg()
+        loops = [n for n in gf.nodes if n.kind == 'for' and isinstance(n.ast.target, ast.Tuple)]
+        need(loops, 'C16.d: the multipart generator has no loop over the ranges')
+        lp = loops[0]
+        sv2, ev2 = [src(x) for x in lp.ast.target.elts]
+        rds = [n for n in gf.nodes if n.kind == 'stmt' and ('loop', lp.ast) in n.ctx and any(src(c) == f'bodyfile.read({ev2} - {sv2})' for c in calls_in(n.ast))]
+        sks = [n for n in gf.nodes if n.kind == 'stmt' and ('loop', lp.ast) in n.ctx and any(src(c) == f'bodyfile.seek({sv2})' for c in calls_in(n.ast))]
+        okm = bool(rds) and bool(sks) and all(Q.reachable_without(gf, r_, start=lp, avoid_node=lambda n: n in sks, weak=True) is None for r_ in rds)
+        chk.ob('d', fr.ref, 'each part of a multipart response is read (exactly stop − start bytes) after an unconditional seek to its start', okm, loc(fr, lp.ast),
+               discr='multipart-seek-read')
+        hdr = [c for n in gf.nodes if n.kind == 'stmt' and ('loop', lp.ast) in n.ctx for c in [n.ast] if 'Content-range' in src(n.ast)]
+        okh = bool(hdr) and all(f'({sv2}, {ev2} - 1, {lenv})' in src(h_) for h_ in hdr)
+        chk.ob('d', fr.ref, 'each part announces start-(stop−1)/length', okh, loc(fr, lp.ast), discr='multipart-content-range')
     # ranges only for HTTP/1.1
     q = pat.guarded_by(g, calls[0], pat.test_edge(lambda tt, pol: pat.fact_matches(pat.compare_fact(tt, pol), 'request.protocol', ('>=',), '(1, 1)')))
     chk.ob('d', f.ref, 'Range is honoured only for HTTP/1.1 requests', q is None, loc(f, calls[0].ast), discr='http11-only')
